@@ -273,25 +273,67 @@ def check(repo, res, tier):
             if not sets:
                 bad = p
     if not n_branch:
-        # collection form: the flagged finished tasks are gathered first and DELAYED is set when
-        # that collection is not empty -- the guard is "exists t in plan.tasks: FINISHED(t) and t.delay_flag"
-        import re as _re
-        T = _re.escape('%s.tasks' % u.params[1])
-        pat = _re.compile(r'exists \$1 in seq\[elem\(%s\) for %s if \(elem\(%s\)\.task_status (?:is|==) '
-                          r'TaskStatus\.FINISHED\)\]: truthy\(\$1\.delay_flag\)' % (T, T, T))
+        # any other arrangement (flagged finished tasks gathered first, loops over a filtered copy,
+        # a test of "is the collection empty"): the guard of the DELAYED assignment, read off its
+        # enclosing loops and conditions, must be  exists t in plan.tasks: FINISHED(t) and t.delay_flag
         from ..index import guard_stack
+        from ..paths import assigned_names
         ufr = Frame(u)
+        ppc = ProvCanon(repo)
+        T = '%s.tasks' % u.params[1]
+        E = 'elem(%s)' % T
+        want = {Lit('TaskStatus.FINISHED == %s.task_status' % E, True), Lit('truthy(%s.delay_flag)' % E, True)}
+
+        def comp_of(e, d=0):
+            """(iterable string, {literals}) when e is (a local naming) the plan's tasks or a filtered
+            comprehension over them whose elements are the tasks themselves"""
+            if d > 4:
+                return None
+            if ppc.p(e, ufr) == T:
+                return T, set()
+            if isinstance(e, ast.Name):
+                defs = assigned_names(u).get(e.id, [])
+                if len(defs) == 1 and isinstance(defs[0], ast.Assign):
+                    return comp_of(defs[0].value, d + 1)
+                return None
+            parts = ppc.seq_parts(e, ufr)
+            if parts is None:
+                return None
+            elt, it, conds, lvars = parts
+            inner = comp_of(it, d + 1)
+            if inner is None:
+                return None
+            lits = set(inner[1])
+            for c_, pol in conds:
+                lits |= plogic.must(c_, ufr, pol)
+            return inner[0], lits
         for n in walk_no_nested(u.node):
             if isinstance(n, ast.Assign) and canon.c(n.targets[0], ufr) == 'Scheduler.schedule_status' and \
                     canon.c(n.value, ufr) == 'ScheduleStatus.DELAYED':
                 gs = guard_stack(u.node, n) or []
-                conds = [g for g in gs if g[0] == 'if']
                 lits = set()
-                for _, t, pol in conds:
-                    alts = plogic.dnf(t, ufr, pol, depth=1)
-                    lits |= set(alts[0]) if len(alts) == 1 else {None}
-                if not any(g[0] in ('for', 'while') for g in gs) and len(lits) == 1 and None not in lits and \
-                        all(l.pol and pat.fullmatch(l.atom) for l in lits):
+                quantified = False
+                okg = True
+                for g in gs:
+                    if g[0] == 'for':
+                        c = comp_of(g[1].iter)
+                        if c is None:
+                            okg = False
+                        else:
+                            quantified = True
+                            lits |= c[1]
+                    elif g[0] == 'while':
+                        okg = False
+                    else:
+                        _, t, pol = g
+                        shape = plogic._emptiness_shape(t, ufr, pol)
+                        c = comp_of(shape[0]) if shape is not None and shape[1] is False else None
+                        if c is not None:
+                            quantified = True          # "the filtered collection is not empty"
+                            lits |= c[1]
+                        else:
+                            lits |= plogic.must(t, ufr, pol)
+                if okg and quantified and lits == want:
                     n_branch += 1
                 else:
                     bad = upaths[0]
